@@ -95,6 +95,15 @@ func (t c06tuple) mutated(field string) c06tuple {
 		x := append([]byte{}, n.IDs[1]...)
 		x[5] ^= 1
 		n.IDs[1] = x
+	case "identity-leading-zero-stripped":
+		// the first identity starts with zero bytes: the same value as an integer, shorter
+		n.IDs[0] = append([]byte{}, n.IDs[0][1:]...)
+	case "identity-leading-zeros-stripped":
+		x := n.IDs[0]
+		for len(x) > 1 && x[0] == 0 {
+			x = x[1:]
+		}
+		n.IDs[0] = append([]byte{}, x...)
 	case "identity-shorter":
 		n.IDs[1] = append([]byte{}, n.IDs[1][:len(n.IDs[1])-1]...)
 	case "identity-longer":
@@ -461,7 +470,7 @@ func c06() *report.Check {
 							targets = append(targets, "accessnode")
 						}
 						for _, tg := range append([]string{"func"}, targets...) {
-							for _, f := range []string{"", "instance", "eon", "slot", "ptr", "identity-byte", "identity-shorter", "identity-longer", "identity-dropped", "identity-swapped", "identity-added"} {
+							for _, f := range []string{"", "instance", "eon", "slot", "ptr", "identity-byte", "identity-leading-zero-stripped", "identity-leading-zeros-stripped", "identity-shorter", "identity-longer", "identity-dropped", "identity-swapped", "identity-added"} {
 								if fl == "service" && (f == "slot" || f == "ptr") {
 									continue
 								}
